@@ -313,13 +313,30 @@ def r3_view(chk, conf, ens):
                     for p in stored_paths(s):
                         if p.startswith("self._") and p.count(".") == 1 and "[" not in p and p[5:] in ("_coords", "_atomic_charges"):
                             need_setter.setdefault(p[5:], (c, nm, s))
+    import copy as _copy
+
+    def through_props(e, depth=3):
+        """`self.<p>` spelled out when <p> is a helper *property* of the view with a single `return <expr>`: it is evaluated on every
+        access, so it is the expression.  (An attribute assigned once in __init__ is not a property and stays a name: a cached row.)"""
+        class T(ast.NodeTransformer):
+            def visit_Attribute(self, n):
+                self.generic_visit(n)
+                if isinstance(n.value, ast.Name) and n.value.id == "self" and n.attr not in ("_coords", "_atomic_charges", "_parent", "_conf_id"):
+                    m_ = conf.members.get(n.attr)
+                    if m_ is not None and m_.getter is not None:
+                        rs = [x for x in ast.walk(m_.getter) if isinstance(x, ast.Return) and x.value is not None]
+                        if len(rs) == 1 and len([s_ for s_ in m_.getter.body if not (isinstance(s_, ast.Expr) and isinstance(s_.value, ast.Constant))]) == 1:
+                            return through_props(_copy.deepcopy(rs[0].value), depth - 1) if depth > 0 else n
+                return n
+        return T().visit(_copy.deepcopy(e))
+
     for slot in ("_coords", "_atomic_charges"):
         mem = conf.members.get(slot)
         where = f"{conf.module.relpath}:{conf.node.lineno}"
         chk.require(mem is not None and mem.getter is not None, f"Conformer.{slot} view property vanished")
         g = [x for x in ast.walk(mem.getter) if isinstance(x, ast.Return)]
         want = f"self._parent.{slot}[self._conf_id]"
-        chk.decide(len(g) == 1 and norm(g[0].value) == want, "C14.R3", f"{conf.module.relpath}:Conformer.{slot}:getter", f"{conf.module.relpath}:{mem.getter.lineno}",
+        chk.decide(len(g) == 1 and norm(through_props(g[0].value)) == want, "C14.R3", f"{conf.module.relpath}:Conformer.{slot}:getter", f"{conf.module.relpath}:{mem.getter.lineno}",
                    want, f"Conformer.{slot} reads `{norm(g[0].value) if g else None}`, not row _conf_id of the parent's {slot}")
         if slot in need_setter or mem.setter is not None:
             if mem.setter is None:
@@ -330,7 +347,8 @@ def r3_view(chk, conf, ens):
             else:
                 st = [x for x in walk_no_nested(mem.setter) if isinstance(x, ast.Assign)]
                 p = mem.setter.args.args[1].arg
-                ok = len(st) == 1 and norm(st[0].targets[0]) == want and norm(st[0].value) == p
+                # the row itself, or all of it (`row[...] = v`, `row[:] = v`)
+                ok = len(st) == 1 and norm(through_props(st[0].targets[0])) in (want, f"{want}[...]", f"{want}[:]") and norm(st[0].value) == p
                 chk.decide(ok, "C14.R3", f"{conf.module.relpath}:Conformer.{slot}:setter", f"{conf.module.relpath}:{mem.setter.lineno}",
                            f"{want} = value", f"Conformer.{slot} setter does `{short(st[0], 60) if st else '?'}`: a write through the view does not land in row _conf_id of the parent's {slot}")
     for nm, src in (("name", "self._parent.name"), ("charge", "self._parent.charge"), ("mult", "self._parent.mult"), ("attrib", "self._parent.attrib"),
